@@ -119,6 +119,13 @@ pub fn c15_worker(ctx: &mut Ctx) {
         let mut rng = ctx.rng("segpair", i);
         ctx.evaluations += 1;
         let before = st.segment_pairs;
+        if i % 4 == 3 {
+            // fans of nearly collinear events at one vertex (event order under cancellation)
+            if let Err(m) = crate::sweepmon::check_event_fan(&mut rng, &mut st) {
+                ctx.violation("ordering:fan", &m, json!({"kind": "eventfan", "property": "C15", "seed": ctx.seed, "index": i}));
+            }
+            continue;
+        }
         if let Err(m) = check_segment_pair(&mut rng, &mut st) {
             ctx.violation("ordering:pair", &m, json!({"kind": "segpair", "property": "C15", "seed": ctx.seed, "index": i}));
         }
@@ -127,6 +134,7 @@ pub fn c15_worker(ctx: &mut Ctx) {
             ctx.note_nontrivial(crate::util::fnv64(format!("segpair{}-{}", ctx.seed, i).as_bytes()));
         }
     }
+    ctx.cnt("constructed_event_fans_of_nearly_collinear_segments", st.event_fans);
     ctx.cnt("constructed_segment_pairs_compared", st.segment_pairs);
     ctx.cnt("constructed_segment_pairs_with_decided_geometry", st.segment_geo_pairs);
     stage_worker(ctx, "C15", 20_000, 1_000_000)
